@@ -692,3 +692,15 @@ M('c06g-res-chunk-end-diverges', 'C06', 'break', RS,
 M('c03h-one-sided-param-rename-keep', 'C03', 'keep', RS,
   'static void htp_connp_res_clear_buffer(htp_connp_t *connp) {\n    connp->out_current_consume_offset = connp->out_current_read_offset;\n\n    if (connp->out_buf != NULL) {\n        free(connp->out_buf);\n        connp->out_buf = NULL;\n        connp->out_buf_size = 0;',
   'static void htp_connp_res_clear_buffer(htp_connp_t *parser) {\n    parser->out_current_consume_offset = parser->out_current_read_offset;\n\n    if (!(parser->out_buf == NULL)) {\n        free(parser->out_buf);\n        parser->out_buf = NULL;\n        parser->out_buf_size = 0;')
+
+# ---------------- repairs of recorded findings must leave the checks quiet (the known-finding entry just goes stale)
+CP = 'htp/htp_connection_parser.c'
+M('repair-d23-close-respects-stop', 'C09', 'keep', CP,
+  '    if (connp->in_status != HTP_STREAM_ERROR)\n        connp->in_status = HTP_STREAM_CLOSED;\n    if (connp->out_status != HTP_STREAM_ERROR)\n        connp->out_status = HTP_STREAM_CLOSED;',
+  '    if ((connp->in_status != HTP_STREAM_ERROR) && (connp->in_status != HTP_STREAM_STOP))\n        connp->in_status = HTP_STREAM_CLOSED;\n    if ((connp->out_status != HTP_STREAM_ERROR) && (connp->out_status != HTP_STREAM_STOP))\n        connp->out_status = HTP_STREAM_CLOSED;')
+M('repair-d16-consolidate-null-chunk', 'C01', 'keep', RQ,
+  '    if (connp->in_buf == NULL) {\n        // We do not have any data buffered; point to the current data chunk.\n        *data = connp->in_current_data + connp->in_current_consume_offset;',
+  '    if (connp->in_buf == NULL) {\n        // We do not have any data buffered; point to the current data chunk.\n        if (connp->in_current_data == NULL) {\n            *data = NULL;\n            *len = 0;\n            return HTP_OK;\n        }\n        *data = connp->in_current_data + connp->in_current_consume_offset;')
+M('repair-d3-no-umask', 'C19', 'keep', 'htp/htp_multipart.c',
+  '                        mode_t previous_mask = umask(S_IXUSR | S_IRWXG | S_IRWXO);\n                        part->file->fd = mkstemp(part->file->tmpname);\n                        umask(previous_mask);',
+  '                        part->file->fd = mkstemp(part->file->tmpname);')
